@@ -36,3 +36,25 @@ package dns
 //@   requires a != nil && b != nil
 //@   exit neg: ret0 ==> a.Negation == b.Negation
 //@   pure
+
+// ---- Dedup's grouping key ---------------------------------------------------------------------------------------
+// normalizedString(r) is t = r.String() with the TTL column removed and the unescaped letters A-Z of the owner
+// column lower-cased: with a < b the first two unescaped TABs of t (a TAB at index 0 does not count),
+// the result is lowu(t[0..a)) followed by t[b..).  utab: an unescaped TAB; lowu: the folded octet.
+//@ spec utab(t seq, k int) bool = t[k] == '\t' && !escd(t, k)
+//@ spec lowu(t seq, k int) int = (t[k] >= 'A' && t[k] <= 'Z' && !escd(t, k)) ? t[k] + 32 : t[k]
+
+//@ func normalizedString [C20]
+//@   opt no-safety
+//@   exit tabs: ttlEnd != 0 ==> 0 < ttlStart && ttlStart < ttlEnd && ttlEnd < len(callres("String")) && utab(callres("String"), ttlStart) && utab(callres("String"), ttlEnd) && (forall k in 1..ttlStart :: !utab(callres("String"), k)) && (forall k in ttlStart+1..ttlEnd :: !utab(callres("String"), k))
+//@   exit cut:  ttlEnd != 0 ==> len(ret0) == len(callres("String")) - (ttlEnd - ttlStart)
+//@   exit own:  ttlEnd != 0 ==> (forall k in 0..ttlStart :: ret0[k] == lowu(callres("String"), k))
+//@   exit rest: ttlEnd != 0 ==> (forall k in ttlStart..len(ret0) :: ret0[k] == callres("String")[k + ttlEnd - ttlStart])
+//@   loop 1 invariant 0 <= i && i <= len(b) && len(b) == len(callres("String")) && fresh(b) && 0 <= ttlStart && ttlStart < i + 1 && 0 <= ttlEnd && ttlEnd < i + 1
+//@   loop 1 invariant esc: esc == escd(callres("String"), i)
+//@   loop 1 invariant done: forall k in 0..i :: b[k] == lowu(callres("String"), k)
+//@   loop 1 invariant todo: forall k in i..len(b) :: b[k] == callres("String")[k]
+//@   loop 1 invariant t0:  ttlStart == 0 ==> ttlEnd == 0 && (forall k in 1..i :: !utab(callres("String"), k))
+//@   loop 1 invariant t1:  ttlStart != 0 ==> utab(callres("String"), ttlStart) && (forall k in 1..ttlStart :: !utab(callres("String"), k)) && ttlStart < i
+//@   loop 1 invariant t2:  ttlStart != 0 && ttlEnd == 0 ==> (forall k in ttlStart+1..i :: !utab(callres("String"), k))
+//@   loop 1 invariant t2d: ttlEnd != 0 ==> ttlStart != 0 && ttlStart < ttlEnd && utab(callres("String"), ttlEnd) && (forall k in ttlStart+1..ttlEnd :: !utab(callres("String"), k)) && i == ttlEnd + 1
